@@ -395,6 +395,8 @@ def gen_add(rng, cfg, w: World, opid: int, invalid: bool, steer: bool):
             op["deep"] = True
     if mt.typed and api in ("add", "append_child", "prepend_child") and rng.random() < 0.8:
         op["kind"] = rng.choice(cfg["kinds"])
+        if invalid and "tree" not in op.get("src", {}) and rng.random() < 0.3:
+            op["kind"] = 7  # "kind: str": a non-string is not a legal kind
     if api == "add":
         b = pick_before(rng, P)
         if invalid and rng.random() < 0.5:
@@ -610,7 +612,7 @@ def gen_meta(rng, cfg, w: World, opid, invalid, steer):
             op["values"] = {"d1": {"a": 1, "b": "y"}, "d2": {"c": 2}}[op["shared"]]
         else:
             op["values"] = {k: rng.choice([1, 2, "y"])
-                            for k in rng.sample(keys, rng.randint(1, 2))}
+                            for k in rng.sample(keys, rng.choice([0, 1, 1, 1, 2, 2, 2, 2]))}
         op["replace"] = rng.random() < 0.4
     else:
         op["fn"] = "clear"
